@@ -5,6 +5,9 @@ import Proofs.ConnProg
 namespace Proofs.Conn
 open ZodbModel ZodbModel.Conn
 
+/-- the object with this oid is cached and not marked changed -/
+def cleanQ (s : State) (k : Nat) : Prop := ∃ j, s.cache.get k = some j ∧ (s.objs j).status ≠ .changed
+
 /-- inside the `_commit` of `Connection.savepoint`: the temporary store `t` of the current state `s`,
     relative to the store `t0` of the state `s0` in which `_commit` started -/
 structure TmpRel (t0 : TmpStore) (s0 s : State) (t : TmpStore) : Prop where
@@ -19,13 +22,18 @@ structure TmpRel (t0 : TmpStore) (s0 s : State) (t : TmpStore) : Prop where
   idxKeep : ∀ k, t0.index.get k ≠ none → t.index.get k ≠ none
   marks : ∀ k, marked s k → marked s0 k ∨ ∃ p, t.index.get k = some p ∧ t0.position ≤ p
   staged : s.staged = s0.staged
+  crNew : ∀ k, s.creating.has k = true → s0.creating.has k = true ∨
+    ∃ p, t.index.get k = some p ∧ t0.position ≤ p
+  statusNew : ∀ j k, (s.objs j).oid = some k → (s.objs j).status ≠ (s0.objs j).status →
+    ∃ p, t.index.get k = some p ∧ t0.position ≤ p
+  noOidSame : ∀ j, (s.objs j).oid = none → (s.objs j).status = (s0.objs j).status
 
 def TmpJ (t0 : TmpStore) (s0 s : State) : Prop := ∃ t, s.sp = some t ∧ TmpRel t0 s0 s t
 
 theorem TmpJ.refl {t0 : TmpStore} {s : State} (h : s.sp = some t0) (hp : t0.position = t0.entries.length) :
     TmpJ t0 s s :=
   ⟨t0, h, rfl, hp, Nat.le_refl _, fun _ _ => rfl, fun _ _ h => Or.inl h, fun _ h => h,
-    fun _ h => Or.inl h, rfl⟩
+    fun _ h => Or.inl h, rfl, fun _ h => Or.inl h, fun _ _ _ h => absurd rfl h, fun _ _ => rfl⟩
 
 theorem tmpJ_step (t0 : TmpStore) (s0 : State) : StepInv (TmpJ t0 s0) := by
   intro s i k rest s3 pushed hJ hS hk sp st
@@ -114,5 +122,104 @@ theorem tmpJ_step (t0 : TmpStore) (s0 : State) : StepInv (TmpJ t0 s0) := by
       · right
         exact ⟨p, by rw [Map.get_set, if_neg hkk]; exact hp, hle⟩
   · rw [hst3]; exact hR.staged
+  · -- crNew
+    intro k' hc
+    show s0.creating.has k' = true ∨ ∃ p, (t.index.set k t.position).get k' = some p ∧ t0.position ≤ p
+    by_cases hkk : k' = k
+    · subst hkk
+      right; exact ⟨t.position, by rw [Map.get_set]; simp, hR.le⟩
+    · rw [sp.creating] at hc
+      split at hc
+      · rename_i hcnd; exact absurd hcnd.2 hkk
+      · rcases hR.crNew k' hc with h | ⟨p, hp, hle⟩
+        · exact Or.inl h
+        · right; exact ⟨p, by rw [Map.get_set, if_neg hkk]; exact hp, hle⟩
+  · -- statusNew
+    intro j k' hj hne
+    show ∃ p, (t.index.set k t.position).get k' = some p ∧ t0.position ≤ p
+    by_cases hkk : k' = k
+    · subst hkk
+      exact ⟨t.position, by rw [Map.get_set]; simp, hR.le⟩
+    · rcases sp.obj j with h | h | h
+      · rw [h] at hj hne
+        obtain ⟨p, hp, hle⟩ := hR.statusNew j k' hj hne
+        exact ⟨p, by rw [Map.get_set, if_neg hkk]; exact hp, hle⟩
+      · exfalso
+        rw [h.2.1, h.1, hk] at hj; cases hj; exact hkk rfl
+      · exfalso
+        rw [h.2.2.2.1] at hne
+        exact hne (hR.noOidSame j h.2.2.1)
+  · -- noOidSame
+    intro j hj
+    rcases sp.obj j with h | h | h
+    · rw [h] at hj ⊢; exact hR.noOidSame j hj
+    · rw [h.2.1, h.1, hk] at hj; cases hj
+    · obtain ⟨k', hk', _⟩ := h.2.2.2.2; rw [hk'] at hj; cases hj
+
+/-- under a TmpStore a stored object is up to date, and stays so -/
+theorem tmpJ_stepQ (t0 : TmpStore) (s0 : State) : StepQ (TmpJ t0 s0) cleanQ := by
+  intro s i k rest s3 pushed hJ hS hk sp st
+  obtain ⟨t, hsp, _⟩ := hJ
+  obtain ⟨_, _, hup3⟩ := st.stagedTmp t hsp
+  refine ⟨⟨i, by rw [sp.cache]; simp, by rw [hup3]; simp⟩, ?_⟩
+  intro k' ⟨j, hc, hs⟩
+  by_cases hkk : k' = k
+  · subst hkk
+    have := hS.inj j i k' (hS.cacheS k' j hc) hk
+    subst this
+    exact ⟨j, by rw [sp.cache]; simp, by rw [hup3]; simp⟩
+  · refine ⟨j, by rw [sp.cache]; simp [hkk, hc], ?_⟩
+    rcases sp.obj j with h | h | h
+    · rw [h]; exact hs
+    · rw [h.2.2.2.1]; simp
+    · have := hS.cacheS k' j hc; rw [h.2.2.1] at this; cases this
+
+/-! ### what is still known about the temporary store when the `_commit` of a savepoint fails -/
+
+structure TmpFailRel (t0 : TmpStore) (s0 s : State) (t : TmpStore) : Prop where
+  cr : t.creating = t0.creating
+  idxKeep : ∀ k, t0.index.get k ≠ none → t.index.get k ≠ none
+  statusNew : ∀ j k, (s.objs j).oid = some k → (s.objs j).status ≠ (s0.objs j).status →
+    t.index.get k ≠ none
+  idxCached : ∀ k, t.index.get k ≠ none → t0.index.get k ≠ none ∨ ∃ i, s.cache.get k = some i
+
+def TmpFail (t0 : TmpStore) (s0 s : State) : Prop := ∃ t, s.sp = some t ∧ TmpFailRel t0 s0 s t
+
+theorem tmp_failInv (t0 : TmpStore) (s0 : State) : FailInv (TmpJ t0 s0) (TmpFail t0 s0) := by
+  refine ⟨?_, ?_, ?_⟩
+  · intro s ⟨t, hsp, hR⟩
+    refine ⟨t, hsp, hR.cr, hR.idxKeep, ?_, ?_⟩
+    · intro j k hj hne
+      obtain ⟨p, hp, _⟩ := hR.statusNew j k hj hne
+      rw [hp]; simp
+    · intro k hk
+      obtain ⟨p, hp⟩ := Option.ne_none_iff_exists'.1 hk
+      rcases hR.idx k p hp with h | ⟨_, _, i, hi, _⟩
+      · left; rw [h]; simp
+      · exact Or.inr ⟨i, hi⟩
+  · intro s i k rest s3 pushed ⟨t, hsp, hR⟩ hS hk sp hfail
+    obtain ⟨h1, h2, _⟩ := hfail (by rw [hsp]; rfl)
+    refine ⟨t, by rw [h1]; exact hsp, hR.cr, hR.idxKeep, ?_, ?_⟩
+    · intro j k' hj hne
+      rw [h2] at hj hne
+      obtain ⟨p, hp, _⟩ := hR.statusNew j k' hj hne
+      rw [hp]; simp
+    · intro k' hk'
+      obtain ⟨p, hp⟩ := Option.ne_none_iff_exists'.1 hk'
+      rcases hR.idx k' p hp with h | ⟨_, _, i', hi', _⟩
+      · left; rw [h]; simp
+      · right
+        rw [sp.cache]
+        by_cases hkk : k' = k
+        · exact ⟨i, by simp [hkk]⟩
+        · exact ⟨i', by simp [hkk, hi']⟩
+  · intro s j ⟨t, hsp, hR⟩
+    refine ⟨t, hsp, hR.cr, hR.idxKeep, ?_, hR.idxCached⟩
+    intro j' k hj' hne
+    simp only [disownPending, setO] at hj' hne
+    by_cases hjj : j' = j
+    · subst hjj; simp at hj'
+    · rw [if_neg hjj] at hj' hne
+      exact hR.statusNew j' k hj' hne
 
 end Proofs.Conn
